@@ -1,5 +1,58 @@
 package main
 
+// C09 — malformed requests and tokens yield an error response, never a panic (DESIGN §5 C09).
+
+func nullRejectingObs() []Ob {
+	return []Ob{
+		{ID: "E3.null-rejecting", Fn: "oidc.ParseToken", P: []string{"tokenString", "claims"}, Kind: "call", Pat: "json.Unmarshal($payload, $claims)", Max: 1,
+			Why: "a JWT payload that is the JSON literal null leaves pointer claims nil without an error",
+			Req: []string{`false(bytes.Equal(bytes.TrimSpace($payload), conv(_, "null")))`}},
+		{ID: "E3.null-rejecting", Fn: "http.HttpRequest", P: []string{"client", "req", "response"}, Kind: "call", Pat: "json.Unmarshal($body, $response)", Max: 1,
+			Why: "a response body that is the JSON literal null leaves pointer response values nil without an error",
+			Req: []string{`false(bytes.Equal(bytes.TrimSpace($body), conv(_, "null")))`}},
+	}
+}
+
+var c09AssertAllow = []allowSite{
+	{"oidc.NewEncoder", "value.Interface().(SpaceDelimitedArray)", "schema invokes a registered encoder only with values of the registered type (RegisterEncoder(SpaceDelimitedArray{}, ...))"},
+}
+
+var c09BoundsAllow = []allowSite{
+	{"client/rp.AuthURLHandler", "opts[i]", "opts is make(len(urlParam)) and i ranges over urlParam"},
+	{"crypto.HashString", "hash.Sum(nil)[:size]", "size is hash.Size() or half of it; Sum(nil) returns exactly Size() bytes"},
+	{"http.ConcatenateJSON", "first[len(first) - 1]", "first ends in '}' (HasSuffix checked), so len(first) >= 1"},
+	{"http.ConcatenateJSON", "second[1:]", "second starts with '{' (HasPrefix checked), so len(second) >= 1"},
+	{"oidc.(*Audience).UnmarshalJSON", "(*a)[i]", "*a is make(len(aud)) and i ranges over aud"},
+	{"oidc.mergeAndMarshalClaims", "", "inlined bytes.Buffer.Bytes(): a slice of the buffer's own storage"},
+	{"op.NewUserCode", "charSet[int(bi.Int64())]", "bi is drawn from [0, len(charSet)) by rand.Int(_, big.NewInt(len(charSet)))"},
+}
+
 func init() {
-	register(&PropSpec{ID: "C09", Explanation: "tmp", Rules: []string{"E2.R-once", "E2.R-stop", "E2.R-answer"}, Run: func(c *Ctx) { RunE2(c) }})
+	register(&PropSpec{
+		ID: "C09",
+		Explanation: "Decides, for all paths of in-module code: (E2) every function or closure that takes an http.ResponseWriter answers at most once, performs no further work after an error responder fired, and every root handler answers on every path (typestate over go/cfg with summaries for derived responders); (E3.N1) every decode-into call with a nillable target (&pointer, &type-parameter, &interface, &map) either goes through a decode function that rejects the JSON document null before decoding (ParseToken, HttpRequest: E1 obligations on their bodies) or is followed only by nil-guarded dereferences; (E3.N2) results that a callee may return nil together with a success status are nil-tested before every dereference; (E4) no unchecked type assertion, no panic call, no bounds check the compiler cannot prove outside a reviewed table, and no codec method that hands its own type back to the JSON codec (unbounded recursion). Third-party and standard-library code is trusted not to panic on data.",
+		RuleText:    "obligation = (rule, function, construct): one per handler and rule for E2, one per decode site / risky result binding / assertion / bounds site / codec method otherwise; non-trivial when the function contains at least one responder, decode target, assertion or index expression of that kind",
+		Assumptions: []string{"a failed write to the ResponseWriter means the peer is gone (not counted as a second response)", "dynamic callees that receive the ResponseWriter (next.ServeHTTP, application callbacks) answer exactly once", "stdlib, go-jose, schema, securecookie do not panic on data"},
+		Trusted:     []string{"go/types, go/cfg (x/tools v0.50.0)", "cmd/compile prove pass (bounds-check report)", "stdlib and third-party decoders"},
+		Level:       "Sound static check of the structural clauses of the property for in-module code: at most one response and stop-after-error on every path of every handler; no nil dereference of nullable decode targets or nil-with-success results; no unchecked assertion / explicit panic / unreviewed unproven bounds check / codec recursion. This is most of what 'never panics, never answers twice' means for this code base; panics inside dependencies are outside.",
+		Note:        "Trusted: go/types+go/cfg, the compiler's prove pass for the bounds report, dependencies. Allow-lists are keyed by function and expression with a reason each.",
+		Technique:   "static analysis: response typestate over go/cfg with interprocedural summaries; nil-flow rules over the typed AST; compiler bounds-check report; codec recursion rule",
+		Rules:       []string{"E2.R-once", "E2.R-stop", "E2.R-answer", "E3.N1", "E3.N2", "E4.R-assert", "E4.R-panic", "E4.R-recursion", "E1"},
+		Floors:      []Floor{{"E2.R-once", 55}, {"E3.N1", 8}, {"E4.R-recursion", 10}},
+		Run: func(c *Ctx) {
+			RunE2(c)
+			RunE1(c, "C09", nullRejectingObs())
+			nr := map[string]bool{"oidc.ParseToken": true, "http.HttpRequest": true}
+			for _, f := range c.R.Findings {
+				if f.Rule == "E3.null-rejecting" || f.Rule == "vacuity" || f.Rule == "anchor-unresolved" {
+					delete(nr, f.Func)
+				}
+			}
+			RunN1(c, nr)
+			RunN2(c)
+			RunAssertPanic(c, []string{"oidc", "op", "client", "client/rp", "client/rs", "client/profile", "client/tokenexchange", "http", "crypto", "strings"}, c09AssertAllow, nil)
+			RunBounds(c, c09BoundsAllow)
+			RunMarshalRecursion(c, []string{"oidc", "op", "client", "client/rp"})
+		},
+	})
 }
